@@ -228,9 +228,16 @@ func (v *VStruct) validate(structName string, value reflect.Value, isValidGather
 	return v
 }
 
+// structTypeCacheKey 缓存的 key, 验证规则是从 targetTag 里解析的, 同一个结构体不同的 targetTag 需要分开缓存
+type structTypeCacheKey struct {
+	ty        reflect.Type
+	targetTag string
+}
+
 // getCacheStructType 获取缓存中的 reflect.Type
 func (v *VStruct) getCacheStructType(ty reflect.Type) structType {
-	if obj, ok := cacheStructType.Load(ty); ok {
+	cacheKey := structTypeCacheKey{ty: ty, targetTag: v.targetTag}
+	if obj, ok := cacheStructType.Load(cacheKey); ok {
 		return obj.(structType)
 	}
 
@@ -250,7 +257,7 @@ func (v *VStruct) getCacheStructType(ty reflect.Type) structType {
 		}
 		obj.fieldInfos[fieldNum] = info
 	}
-	cacheStructType.Store(ty, obj)
+	cacheStructType.Store(cacheKey, obj)
 	return obj
 }
 
